@@ -167,6 +167,7 @@ func (fr *Frame) instr(st *State, in ssa.Instruction) bool {
 		if mt, ok := in.X.Type().Underlying().(*types.Map); ok {
 			// ghost: number of elements produced so far, and the map contents the iteration started from
 			st.Comp[mapIterKey(in)] = c.idx(0)
+			st.Comp[mapVisitedKey(in, c.sortOf(mt.Key()))] = fmt.Sprintf("((as const (Array %s Bool)) false)", c.sortOf(mt.Key()))
 			_, _, md, _ := x.mapKeys(mt)
 			if fr.rangeDom == nil {
 				fr.rangeDom = map[ssa.Value]string{}
